@@ -45,6 +45,16 @@ Theorems (coq/theories/C08/Property.v, all "Closed under the global context"; no
   C08_new_is_image               the completely written temp file holds `image` for EVERY tensor kind, incl.
                                  the chunked copy loop of ExternalTensor.tofile (any chunk size; short sources
                                  make the loop raise, so they never reach the rename) - Proofs6.copy_Cont.
+  C08_crash_atomic_parallel,     the PARALLEL writer (_write_parallel; sc_par = Some total) is in the model:
+  C08_interrupt_atomic_parallel  open(wb), truncate(total), close; after the first task's callback the worker's
+                                 open(r+b); per task callback, seek, writes; finally close - under the maximally
+                                 serialised schedule (one task at a time, submission order, one worker).  Same
+                                 statements as the serial ones with the complete new bytes = every tensor's bytes at
+                                 its offset over `total` zero bytes (image_from (repeat 0 total)); every fault at
+                                 open/truncate/write/close and every kill point is covered by ctl.  All structural
+                                 theorems (exception_clean, invalidate rule, bystanders, interrupt_structural) hold
+                                 for either writer (the decomposition is generic in the writer program).
+                                 C08_crash_atomic / C08_interrupt_atomic / C08_new_is_image now say sc_par = None.
   C08_interrupt_structural       without src_wf: old node or a file moved wholesale after every action between
                                  temp creation and os.replace returned normally.
   C08_exception_clean            exception of ANY kind (Exception or BaseException-only: KeyboardInterrupt /
@@ -78,6 +88,12 @@ os.path.join excepted) is logged as an unmodelled effect (breaks the trace equal
 failed by NAME with EPERM - so an exception surfacing after the rename has committed is seen by the oracle.
 Scenarios where the caller holds a live numpy view of a (destination-backed) tensor: release() raises
 BufferError (model: AReleaseHeld / sc_held; it happens before the rename, so the save fails cleanly).
+Deterministic parallel flavour (model-tied): scenarios with "pardet" replace the module's `concurrent` name by a
+one-worker executor that runs one task at a time in submission order on the calling thread (a legal schedule of
+the pool; exceptions captured in futures like the real one), so the parallel code path has a reproducible effect
+order: its trace, every fault (incl. truncate, open r+b, the worker handle's close) and every kill point are
+compared with the Coq model like the serial writer's.  Real multi-thread schedules stay oracle-only
+(`exercise_parallel`) and are C09's subject.
 Real-file flavour (oracle only, `exercise_realfile`): every single-file scenario is also saved with the module's
 own open() (ordinary buffered files with a descriptor; ExternalTensor.tofile takes its copy_file_range path, numpy
 writes through the fd), serial and with max_workers=3, and judged against the run through the modelled file path
@@ -209,6 +225,10 @@ def c_ob(e, tok) -> str:
         return f"OSameFileErr {tok(e[1])} {tok(e[2])}"
     if k == "open" and e[2] == "wb":
         return f"OOpenW {tok(e[1])}"
+    if k == "open" and e[2] == "r+b":
+        return f"OOpenRW {tok(e[1])}"
+    if k == "truncate" and isinstance(e[1], int):
+        return f"OTruncate {cnat(e[1])}"
     if k == "callback":
         return f"OCallback {cnat(e[1])}"
     if k == "seek":
@@ -302,14 +322,14 @@ def scenario_terms(scn: dict, root: str, tok: Tok, tag: str):
             h = len(tens)
             handle_of[i] = h
             m = None
-            if (t.get("preload") or t.get("hold")) and "\0" not in t["file"]:
+            if S.wants_map(scn, t):
                 with open(os.path.join(root, t["file"]), "rb") as f:
                     m = f.read()
             tens.append("{| t_path := %s; t_off := %s; t_len := %s; t_valid := true; t_map := %s |}" % (
                 tok(canon.comps(t["file"])), cnat(t["off"]), cnat(t["len"]), copt(m, c_bytes)))
             if t["len"] <= scn["threshold"]:
                 small.append(h)
-            elif t.get("hold"):
+            elif S.wants_hold(scn, t):
                 held.append(h)
     S.cleanup(b)
     scs = []
@@ -348,9 +368,11 @@ def scenario_terms(scn: dict, root: str, tok: Tok, tag: str):
         aliases = [tok(canon.comps(name)) for name, spec in scn["files"].items()
                    if spec["kind"] == "hardlink" and os.path.normpath(spec["target"]) == destrel]
         scs.append("{| sc_req := %s; sc_tmpd := %s; sc_tensors := %s; sc_chunk := %s; sc_cb := %s; sc_cbbase := %s; "
-                   "sc_aliases := %s; sc_held := %s |}" % (
+                   "sc_aliases := %s; sc_held := %s; sc_par := %s |}" % (
                        tok(canon.comps(req)), tok(tmpd), clist(tl), cnat(min(scn.get("chunk") or 4000, 4000)), cbt,
-                       cnat(base), clist(aliases), clist(cnat(h) for h in held)))
+                       cnat(base), clist(aliases), clist(cnat(h) for h in held),
+                       copt(max([o + tensor_nbytes(scn["tensors"][i]) for o, i in items], default=0), cnat)
+                       if scn.get("pardet") and (scn.get("max_workers") or 1) > 1 and len(items) > 1 else "None"))
         base += len(items)
     text = (f"Definition fs_{tag} : fsT := {c_fs(fs0, tok)}.\n"
             f"Definition tens_{tag} : list tstate := {clist(tens)}.\n"
@@ -362,7 +384,7 @@ def scenario_terms(scn: dict, root: str, tok: Tok, tag: str):
 def run_term(scn: dict, tag: str, crash, fault) -> str:
     c = f"(mk {copt(crash, cnat)} {copt(fault, cnat)})"
     if scn.get("max_shard") is None:
-        return f"(run {c} fs_{tag} tens_{tag} small_{tag} (hd (Build_scn [] [] [] 0 None 0 [] []) scs_{tag}))"
+        return f"(run {c} fs_{tag} tens_{tag} small_{tag} (hd (Build_scn [] [] [] 0 None 0 [] [] None) scs_{tag}))"
     return f"(run_sharded {c} fs_{tag} tens_{tag} small_{tag} scs_{tag})"
 
 
@@ -568,6 +590,10 @@ def gen_scenario(rng, sharded: bool = False) -> dict:
     cb = rng.choice([None, None, "ok", "ok"] + ([{"at": rng.randrange(nbig), "exc": gen_exc(rng)}] * 2 if nbig else []))
     scn = {"files": files, "dirs": dirs, "req": req, "threshold": thr, "chunk": rng.choice([1, 3, 5, 8, 64]),
            "cb": cb, "max_workers": rng.choice([None, None, 1]), "max_shard": None, "tensors": tensors}
+    if not sharded and rng.random() < 0.3:
+        # the parallel code path of the writer under the deterministic one-worker schedule (model-tied)
+        scn["max_workers"] = rng.choice([2, 3])
+        scn["pardet"] = True
     if sharded:
         scn["max_shard"] = rng.choice([1, 8, 16, 30])
         # pre-existing shard files in ~half of the cases (the name depends on the shard count)
@@ -686,6 +712,8 @@ def exercise(ck, scn: dict, tag: str, root: str, kills: bool = True, faults: boo
                     S.cleanup(b5)
                 if persistent or (err is None and kind == "replace"):
                     continue
+                if kind == "write" and k % 2 and not ck.thorough:
+                    continue            # quick tier: every second write fault is followed up by kill points
                 # fault at k, then death before effect j (j ranges over everything that runs after the fault)
                 for j in range(k + 1, c2.n):
                     code, before4 = S.run_killed(scn, root, j, fault_at=k, err=err)
@@ -772,7 +800,7 @@ def exercise_realfile(ck, scn: dict, root: str, ref_outcome, new_bytes, tens_bef
     shorter than offset+length cannot deliver its bytes, so the save must raise and leave the destination."""
     fails = []
     for mw in (None, 3):
-        scn2 = dict(scn, max_workers=mw)
+        scn2 = dict(scn, max_workers=mw, pardet=False)
         b2, c2, out2 = S.run_save(scn2, root, realfile=True)
         after2 = snapshot(root)
         ck.count()
@@ -857,9 +885,9 @@ def run(ck) -> None:
     ck.coverage["rule"] = ("non-trivial = the interruption hits an effect strictly between mkdtemp and the end of "
                            "the cleanup of a save whose destination already exists")
     ck.prove()
-    n_single = 36 if not ck.thorough else 400
+    n_single = 28 if not ck.thorough else 400
     n_shard = 10 if not ck.thorough else 120
-    n_par = 5 if not ck.thorough else 60
+    n_par = 4 if not ck.thorough else 60
     runs, oracle_failures = [], []
     scns = [(s, "corpus") for s in load_corpus()]
     for i in range(n_single):
@@ -867,8 +895,8 @@ def run(ck) -> None:
     for i in range(n_shard):
         scns.append((gen_scenario(ck.rng, sharded=True), "shard"))
     root = os.path.join(ck.scratch, "d")
-    par_corpus = [s for s, _ in scns if (s.get("max_workers") or 1) > 1]
-    scns = [(s, src) for s, src in scns if (s.get("max_workers") or 1) <= 1]
+    par_corpus = [s for s, _ in scns if (s.get("max_workers") or 1) > 1 and not s.get("pardet")]
+    scns = [(s, src) for s, src in scns if (s.get("max_workers") or 1) <= 1 or s.get("pardet")]
     for scn in par_corpus:
         oracle_failures += exercise_parallel(ck, scn, root)
         ck.hist("scenario_source", "corpus-parallel")
@@ -988,7 +1016,7 @@ def replay_case(scn: dict, mode: str, index, root: str, errno=None, persistent=F
     new_bytes = {p: e[1] for p, e in after.items() if e[0] == "file"} if outcome[0] == "ok" else None
     if mode == "realfile":
         S.cleanup(b)
-        serial = dict(scn, max_workers=None)
+        serial = dict(scn, max_workers=None, pardet=False)
         bs, cs, outs = S.run_save(serial, root)
         nb = {p: e[1] for p, e in snapshot(root).items() if e[0] == "file"} if outs[0] == "ok" else None
         S.cleanup(bs)
